@@ -359,6 +359,37 @@ class C02(EvalProp):
                               'Parse(%r) -> %s' % (c.path, p[:300]), c, observed=p)
         return f
 
+    def extra(self, ctx, res, g, budget_scale):
+        """bounded time: filters nested in filter operands 8..30 levels deep (<= 256 characters).  Every level
+        re-enters the operand rule from several alternatives, so only a linear-time parser returns; the outcome
+        is known by construction.  Implementation only, short time limit: the Coq interpreter has no memo table
+        (its theorem bounds rule-call depth, not time)."""
+        r = g.r
+        cases = []
+        for d in sorted(set([8, 10, 12, 14, 16, 20, 24, 30] + [r.randint(9, 30) for _ in range(6)])):
+            shapes = [
+                (b'$' + b'[?(@' * d + b'.a' + b')]' * d, 'ok'),
+                (b'$' + b'[?(@.k' * d + b')]' * d, 'ok'),
+                (b'$' + b'[?(@.x' * d + b'==1)]' * d, 'syn'),      # a filter inside a comparison operand: value group
+                (b'$' + b'[?(!@.x' * d + b')]' * d, 'ok'),
+                (b'$' + b'[?(@' * d + b'.a' + b')]' * d + b'~', 'syn'),
+                (b'$' + b'[?(@.x' * d + b' > 1' + b')]' * d, 'ok'),
+            ]
+            for k, (path, want) in enumerate(shapes):
+                if len(path) <= 256:
+                    cases.append((Case('deep%d_%d' % (d, k), path, [], [], [], meta={'kind': 'deep-filter', 'depth': d}), want))
+        outs = core.run_go([c for c, _ in cases], timeout_ms=4000)
+        for (c, want), o in zip(cases, outs):
+            res.evaluations += 1
+            p = o.get('P', '')
+            res.dist['deep:' + pclass(p)] += 1
+            if pclass(p) == want:
+                res.nontrivial.add(c.path)
+            else:
+                res.violation('concrete', sig_of(c, 'parse-not-bounded'),
+                              'Parse of a %d-level nested filter (%d characters) -> %s, expected %s within 4 s'
+                              % (c.meta['depth'], len(c.path), p[:100], want), c, expected=want, observed=p)
+
 
 @register
 class C17(EvalProp):
@@ -479,6 +510,21 @@ class C11(Prop):
         g2 = gens.G(ctx.seed * 3 + seed_offset + 11)
         for k in range(ctx.n(600, 6000) * budget_scale):
             doc, steps = gens.nested_arrays_family(g2)
+            if len(steps) == 2 and steps[0][0] == 'union' and steps[1][0] == 'union' and doc[0] == 'a':
+                # chained subscripts on a matrix: rows by the first, elements of every row by the second
+                def pick(lst, subs):
+                    out = []
+                    for sb in subs:
+                        ix = py_index_ref(len(lst), sb[1]) if sb[0] == 'idx' else \
+                            py_slice_ref(len(lst), sb[1], sb[2], 1 if sb[3] in ('absent', None) else sb[3])
+                        out += [lst[j] for j in ix]
+                    return out
+                want = []
+                for row in pick(doc[1], steps[0][1]):
+                    want += [x[1] for x in pick(row[1], steps[1][1])]
+                cases.append(Case('m%d' % k, gens.render_path(steps), [doc, doc]))
+                expect.append(want)
+                continue
             if steps[0][0] not in ('wild',) or doc[0] != 'a':
                 continue
             sub = steps[1][1][0]
@@ -1119,6 +1165,11 @@ class C09(Prop):
                     e = g.gen_fexpr(body, doc, 0)
                 p = gens.render_operand(e[1], sp)
                 exprs = {'p': p, 'notp': b'!' + p}
+                if r.random() < 0.5:
+                    # the same pair behind a disjunct that never holds and contains non-ASCII text before the `!`
+                    u = r.choice(['\u00e9', '\u65e5\u672c', '\U0001f600', '\u00df\u00e9']).encode('utf-8')
+                    exprs['u_p'] = b"@.zz9 == '" + u + b"' || " + p
+                    exprs['u_notp'] = b"@.zz9 == '" + u + b"' || !" + p
                 kind = 'not'
             else:
                 e = g.gen_fexpr(body, doc, 0)
@@ -1414,9 +1465,28 @@ class C12(Prop):
                 if len(res.samples) < 5 and r0.startswith('ok:'):
                     res.sample({'path': c.path.decode('utf-8', 'replace'), 'plain': r0[:200], 'accessor': ga.get('R0', '')[:200], 'calls': gp.get('C0', '')[:200]})
             res.dist[cls_of(r0 or 'P')] += 1
+        # no Config at all must behave like plain mode, whatever was parsed before (the runner precedes every
+        # case with unrelated calls, among them rejected paths in accessor mode)
+        idx = [i for i, c in enumerate(plain) if not c.filters and not c.aggs][: max(200, len(plain) // 4)]
+        bare = [Case('n' + plain[i].id, plain[i].path, plain[i].docs, [], [], False, True, plain[i].mode, plain[i].meta) for i in idx]
+        gb = core.run_go(bare) if bare else []
+        for i, c, o in zip(idx, bare, gb):
+            res.evaluations += 1
+            gp = go[i]
+            if {kk: v for kk, v in o.items() if kk[0] in 'PR'} != {kk: v for kk, v in gp.items() if kk[0] in 'PR'}:
+                res.violation('concrete', sig_of(c, 'mode-noconfig'), 'without a Config %r behaves differently from plain mode' % (c.path,), c,
+                              expected={kk: v for kk, v in gp.items() if kk[0] in 'PR'}, observed={kk: v for kk, v in o.items() if kk[0] in 'PR'})
 
     def replay(self, ctx, res, v):
         c = case_from_desc(v['case'])
+        if c.nocfg:
+            p = Case('p', c.path, c.docs, [], [], False, False, c.mode)
+            go = core.run_go([c, p])
+            for x in go:
+                print(x)
+            if {kk: v for kk, v in go[0].items() if kk[0] in 'PR'} != {kk: v for kk, v in go[1].items() if kk[0] in 'PR'}:
+                res.violation('concrete', 'replay', 'no Config differs from plain mode', c)
+            return
         c.acc = False
         a = Case('a', c.path, c.docs, c.filters, c.aggs, True, c.nocfg, c.mode)
         go, mo = both_sides([c, a])
@@ -1544,6 +1614,9 @@ class C14(Prop):
             nf = r.randint(1, 3)
             fs = [(('ffun', r.choice(gens.FILTER_FUNCS)) if r.random() < 0.5 else ('agg', r.choice(gens.AGG_FUNCS))) for _ in range(nf)]
             f, a = gens.funcs_used(steps + fs)
+            if f and r.random() < 0.15:
+                # one name registered as both kinds (filter first): it must resolve to the filter function
+                a = sorted(set(a) | {r.choice(f)})
             c = Case('f%d' % i, gens.render_path(steps + fs), [doc], f, a, r.random() < 0.15, meta={'fs': fs, 'nsteps': len(steps)})
             if r.random() < 0.4:
                 c.docs = [doc, mutate_doc(r, doc, 0.5), ('a', [('n', 1.0)])]
@@ -1793,6 +1866,56 @@ class C16(Prop):
                 c.meta = {'key': key, 'pos': pos, 'escaped': any(ch in "'\"\\" or ord(ch) < 0x20 for ch in key) or (dot is not None and dot != kb)}
                 want[cid] = w
                 cases.append(c)
+        # keys written with \\uXXXX escapes, surrogate pairs and UNPAIRED surrogates (which decode to U+FFFD one by one)
+        for i in range(n // 8):
+            units = []
+            for _ in range(r.randint(1, 5)):
+                k = r.random()
+                if k < 0.3:
+                    ch = r.choice('abAZ09 _-') ; units.append((ch, ch))
+                elif k < 0.5:
+                    cp = r.choice([0x41, 0xe9, 0x3b1, 0x65e5, 0xfffd, 0x20ac, 0x7f, 0x1f, 0x2028])
+                    units.append(('\\u%04x' % cp, chr(cp)))
+                elif k < 0.65:
+                    cp = r.choice([0x1f600, 0x10000, 0x10ffff, 0x1d11e]) - 0x10000
+                    units.append(('\\u%04x\\u%04x' % (0xd800 + (cp >> 10), 0xdc00 + (cp & 0x3ff)), chr(cp + 0x10000)))
+                elif k < 0.85:
+                    # an unpaired high surrogate, then something that is not a low surrogate
+                    nxt = r.choice([('\\u0041', 'A'), ('x', 'x'), ('\\u00e9', '\u00e9')])
+                    units.append(('\\u%04x' % r.choice([0xd800, 0xd834, 0xdbff]) + nxt[0], '\ufffd' + nxt[1]))
+                else:
+                    units.append(('\\u%04x' % r.choice([0xdc00, 0xdfff]), '\ufffd'))
+            body, key = ''.join(u[0] for u in units), ''.join(u[1] for u in units)
+            kb = key.encode('utf-8')
+            sibs = {s for s in ['\ufffd', 'A', key[:-1], key + 'A', key.replace('\ufffd', '', 1)] if s != key}
+            members = [(kb, ('n', 1.0))] + [(sx.encode('utf-8'), ('n', float(j + 2))) for j, sx in enumerate(sorted(sibs))]
+            r.shuffle(members)
+            for j, q in enumerate("'\""):
+                cid = 'u%d_%d' % (i, j)
+                c = Case(cid, ('$[' + q + body + q + ']').encode('utf-8'), [('o', members)])
+                c.meta = {'key': key, 'pos': 'uescape', 'escaped': True}
+                want[cid] = 'ok:[n(1,0)]'
+                cases.append(c)
+        # two members addressed from the root on both sides of a comparison: distinct keys must stay distinct
+        for i in range(n // 8):
+            key = gen_key(r)
+            sibs = near_misses(r, key)
+            other = r.choice(sibs) if sibs and r.random() < 0.8 else key
+            if 'list' in (key, other):
+                continue
+            v1, v2 = ('n', 1.0), (('n', 2.0) if other != key else ('n', 1.0))
+            members = [(key.encode('utf-8'), v1)] + ([(other.encode('utf-8'), v2)] if other != key else []) + [(b'list', ('a', [('n', 7.0)]))]
+            r.shuffle(members)
+            q1, q2 = r.choice("'\""), r.choice("'\"")
+            sp1 = b'[' + q1.encode() + gens.esc_json(key.encode('utf-8'), q1) + q1.encode() + b']'
+            sp2 = b'[' + q2.encode() + gens.esc_json(other.encode('utf-8'), q2) + q2.encode() + b']'
+            op = r.choice([b'==', b'!='])
+            cid = 'b%d' % i
+            c = Case(cid, b'$.list[?($' + sp1 + b' ' + op + b' $' + sp2 + b')]', [('o', members)])
+            c.meta = {'key': key, 'pos': 'both-root', 'escaped': True}
+            holds = (other == key) == (op == b'==')
+            want[cid] = 'ok:[n(7,0)]' if holds else None
+            cases.append(c)
         go, mo = both_sides(cases)
         for c, g_, m in zip(cases, go, mo):
             res.evaluations += 1
@@ -1805,7 +1928,11 @@ class C16(Prop):
             if a != b:
                 res.disagreements_checked += 1
                 res.violation('concrete', sig_of(c, 'key-vs-model'), '%r differs from the model' % (c.path,), c, expected=b, observed=a)
-            if c.id in want and a != want[c.id]:
+            if c.id in want and want[c.id] is None:
+                if a.startswith('ok:'):
+                    res.violation('concrete', sig_of(c, 'keys-confused'), 'the comparison %r holds although the two members differ' % (c.path,), c,
+                                  expected='no match', observed=a)
+            elif c.id in want and a != want[c.id]:
                 res.violation('concrete', sig_of(c, 'key-not-addressed'),
                               'the selector %r does not return exactly the member named %r' % (c.path, c.meta.get('key')), c,
                               expected=want[c.id], observed=a)
@@ -1987,9 +2114,26 @@ class C19(Prop):
                 if path in FAILING_PATHS:
                     failed_before = True
             hists.append((ops, interesting))
+        # cold starts: the history runs in a brand-new process, so its first call is the first the library ever sees
+        # (lazily initialised package state, the generated parser's own buffers): the empty path, paths that begin
+        # with an escape, a bare name, ... then ordinary calls
+        ncold = len(hists)
+        for i in range(max(40, n // 12)):
+            first = r.choice([b'', b'', b'\\$ref.id', b'\\@x', b'$', b'a', b'[0]', b'$.a\\.b', b"$['\\u0061']", b'$..*', b' ', b'$[?(@.a)]'])
+            ops = []
+            for k in range(r.randint(1, 4)):
+                path = first if k == 0 else (r.choice(LEAK_PROBES)[0] if r.random() < 0.6 else r.choice(FAILING_PATHS))
+                cfg = {'filters': [], 'aggs': [], 'acc': False, 'nocfg': True} if r.random() < 0.6 else \
+                      {'filters': gens.FILTER_FUNCS, 'aggs': gens.AGG_FUNCS, 'acc': r.random() < 0.3, 'nocfg': False}
+                d = r.choice([doc, doc2, ('o', [(b'$ref', ('o', [(b'id', ('n', 1.0))])), (b'@x', ('n', 2.0)), (b'a.b', ('n', 3.0)), (b'a', ('n', 4.0))])])
+                ops.append((dict(op='retrieve', path_hex=hx(path), doc=core.doc_go(d), mutate=False, **cfg), d))
+            hists.append((ops, True))
         raws = []
         for i, (ops, _) in enumerate(hists):
-            raws.append(RawCase('h%d' % i, hist_json('h%d' % i, [o for o, _ in ops])))
+            if i >= ncold:
+                raws.append(RawCase('h%d' % i, json.dumps({'id': 'h%d' % i, 'mode': 'coldhist', 'ops': [o for o, _ in ops]})))
+            else:
+                raws.append(RawCase('h%d' % i, hist_json('h%d' % i, [o for o, _ in ops])))
         # the same calls alone (first call of a fresh history) and in the model
         uniq = {}
         for ops, _ in hists:
